@@ -20,6 +20,9 @@ pub enum Loc {
     DotDot,
     /// the location the creator recorded
     Original,
+    /// another spelling of the path recorded NOW (a different string naming the same path):
+    /// 0 doubled separator, 1 trailing separator, 2 leading "./", 3 "x/../" in front
+    Respell(u8),
 }
 
 #[derive(Serialize, Deserialize, Clone, Debug, PartialEq, Eq)]
@@ -49,8 +52,23 @@ pub struct Case {
 
 pub struct C12;
 
-fn loc_string(l: &Loc, original: &str) -> String {
+fn loc_string(l: &Loc, original: &str, current: &str) -> String {
     match l {
+        Loc::Respell(k) => {
+            let cur = if current.is_empty() { "dir/pack.jbkc" } else { current };
+            let r = match k % 4 {
+                0 if cur.contains('/') => cur.replacen('/', "//", 1),
+                0 | 1 => format!("{cur}/"),
+                2 => format!("./{cur}"),
+                _ => format!("x/../{cur}"),
+            };
+            // stay admissible
+            if r.len() <= 213 {
+                r
+            } else {
+                cur.to_string()
+            }
+        }
         Loc::Empty => String::new(),
         Loc::Ascii(n) => {
             let n = (*n as usize).min(213);
@@ -127,6 +145,7 @@ impl Property for C12 {
             1 => Just(Loc::Utf8(211)),
             1 => Just(Loc::DotDot),
             2 => Just(Loc::Original),
+            2 => (0u8..4).prop_map(Loc::Respell),
         ];
         let op = prop_oneof![
             6 => (any::<u16>(), prop::bool::weighted(0.12), loc).prop_map(|(pack, unknown, loc)| Op::Set { pack, unknown, loc }),
@@ -151,7 +170,7 @@ impl Property for C12 {
     }
 
     fn required_classes(_tier: Tier) -> Vec<&'static str> {
-        vec!["manifest-at-offset>0", "manifest-standalone", "rewrite-twice-same-pack", "utf8-at-limit", "unknown-uuid", "relocate-directory-pack", "restore-original", "packs-listed:4", "lowlevel-container", "pack-infos-beyond-64KiB", "directory-pack-not-declared-first", "many-packs"]
+        vec!["manifest-at-offset>0", "manifest-standalone", "rewrite-twice-same-pack", "utf8-at-limit", "unknown-uuid", "relocate-directory-pack", "restore-original", "packs-listed:4", "lowlevel-container", "pack-infos-beyond-64KiB", "directory-pack-not-declared-first", "many-packs", "respelled-location"]
     }
 
     fn run(case: &Case, ctx: &Ctx) -> CaseResult {
@@ -329,7 +348,7 @@ impl Property for C12 {
                     if *unknown {
                         info.class("unknown-uuid");
                         let uuid = uuid::Uuid::from_u128(0x1234_5678_9abc_def0_1122_3344_5566_7788u128 ^ (*pack as u128));
-                        let newloc = loc_string(loc, "x");
+                        let newloc = loc_string(loc, "x", "x");
                         match jbk::tools::set_location(&path, uuid, newloc.as_str().into()) {
                             Ok(None) => {}
                             Ok(Some((_, old))) => fail!("unknown-uuid-rewritten", "op {opi}: unknown uuid rewrote a pack (old location {:?})", old.as_str()),
@@ -341,7 +360,10 @@ impl Property for C12 {
                         continue;
                     }
                     let k = pick(*pack, infos.len());
-                    let newloc = loc_string(loc, &infos[k].original);
+                    let newloc = loc_string(loc, &infos[k].original, &infos[k].location);
+                    if matches!(loc, Loc::Respell(_)) && newloc != infos[k].location {
+                        info.class("respelled-location");
+                    }
                     if matches!(loc, Loc::Utf8(n) if *n >= 211) {
                         info.class("utf8-at-limit");
                     }
@@ -392,6 +414,42 @@ impl Property for C12 {
                 }
             }
         }
+        // last: a DAMAGED pack description must not be laundered by a rewrite. One bit of the pack id
+        // of a listed content pack is flipped (its block CRC is now wrong): whatever set_location
+        // answers for that pack afterwards (there and back), the manifest either still refuses to
+        // open or lists exactly what was written - never another pack list under a fresh CRC.
+        if infos.len() <= 8 {
+            if let Some(k) = infos.iter().position(|i| i.kind == b'c') {
+                let mut bytes = prev.clone();
+                bytes[infos[k].block_abs as usize + 32] ^= 0x02;
+                std::fs::write(&path, &bytes).unwrap();
+                let uuid = uuid::Uuid::from_bytes(infos[k].uuid);
+                let first = jbk::tools::set_location(&path, uuid, "moved/elsewhere.jbkc".into());
+                let second = jbk::tools::set_location(&path, uuid, infos[k].location.as_str().into());
+                let listed: Result<Vec<(u16, String)>, String> = (|| {
+                    let cp = jbk::tools::open_pack(&path).map_err(|e| e.to_string())?;
+                    let mr = cp.get_manifest_pack_reader().map_err(|e| e.to_string())?.ok_or("no manifest")?;
+                    let mp = jbk::reader::ManifestPack::new(mr).map_err(|e| e.to_string())?;
+                    Ok(mp.get_pack_infos().iter().map(|p| (p.pack_id.into_u16(), p.uuid.to_string())).collect())
+                })();
+                if let Ok(l) = &listed {
+                    let want: Vec<(u16, String)> = infos.iter().filter(|i| i.kind == b'c').map(|i| (i.pack_id, uuid::Uuid::from_bytes(i.uuid).to_string())).collect();
+                    ensure!(
+                        *l == want,
+                        "damaged-pack-info-laundered",
+                        "a bit of the pack id of pack {} was flipped in the manifest; after set_location there ({}) and back ({}) the manifest opens and lists {:?} instead of {:?}",
+                        infos[k].pack_id,
+                        if first.is_ok() { "Ok" } else { "Err" },
+                        if second.is_ok() { "Ok" } else { "Err" },
+                        l,
+                        want
+                    );
+                }
+                info.class(if listed.is_err() { "damaged-info:still-refused" } else { "damaged-info:reads-as-written" });
+                evals += 1;
+                std::fs::write(&path, &prev).unwrap();
+            }
+        }
         info.evals = evals.max(1);
         let has = |c: &str| info.classes.iter().any(|x| x == c);
         info.nontrivial = nsets >= 1 && (has("rewrite-twice-same-pack") || has("utf8-at-limit") || has("manifest-at-offset>0"));
@@ -409,6 +467,7 @@ impl Property for C12 {
                             Loc::Utf8(_) => 2,
                             Loc::DotDot => 3,
                             Loc::Original => 4,
+                            Loc::Respell(_) => 5,
                         }
                 }
             })
